@@ -38,7 +38,14 @@ def gen(rng, k):
     p = {"ref": ref, "L": L, "t": t, "noise": [0.0, 0.5][k % 2],
          "center": None if k % 3 == 0 else rng.uniform(-40, 40, 2),
          "w": None if k % 4 == 0 else rng.uniform(0.1, 10, n), "seed": int(rng.integers(1 << 30))}
-    if (k // 7) % 3 == 2 and p["center"] is not None:
+    if (k // 4) % 5 == 1 and p["center"] is not None:
+        # a centre ON a coordinate axis (one component exactly zero, in any container / sign of zero), or the origin itself
+        c_ = np.asarray(p["center"], dtype=float).copy()
+        c_[int(rng.integers(2))] = [0.0, -0.0, 0.0][k % 3]
+        if k % 16 == 4:
+            c_[:] = 0.0
+        p["center"] = tuple(c_.tolist()) if k % 2 else c_
+    elif (k // 7) % 3 == 2 and p["center"] is not None:
         # a centre far from the points compared with their spread (e.g. a detector corner as the origin)
         p["center"] = (np.asarray(p["center"]) + rng.choice([-1, 1], 2) * rng.uniform(1.5e4, 3e4, 2))
     if p["w"] is not None and (k // 3) % 4 == 3:
